@@ -744,10 +744,15 @@ func (g *fnGen) typeFacts(st *state, term string, t types.Type) {
 				g.assume(st, And(S("<=", IntLit(lo), term), S("<=", term, IntLit(hi))))
 			}
 		}
+		if u.Info()&types.IsString != 0 {
+			g.assumptions["no string or slice backing array exceeds 2^40 bytes"] = true
+			// ground instance of the length axiom (keeps the quantifier-free relaxation useful)
+			g.assume(st, And(S("<=", "0", S("strlen", term)), S("<=", S("strlen", term), "1099511627776")))
+		}
 	case *types.Slice:
 		g.assume(st, And(S("<=", "0", S("s-off", term)), S("<=", "0", S("s-len", term)), S("<=", S("s-len", term), S("s-cap", term)),
 			S("<=", "0", S("s-base", term)), S("<", S("s-base", term), st.alloc), Imp(S("=", S("s-base", term), "0"), S("=", S("s-cap", term), "0")),
-			S("<=", S("*", fmt.Sprint(max64(1, g.P.sizes.Sizeof(u.Elem()))), S("s-cap", term)), "140737488355328")))
+			S("<=", S("*", fmt.Sprint(max64(1, g.P.sizes.Sizeof(u.Elem()))), S("s-cap", term)), "1099511627776")))
 	case *types.Pointer, *types.Map, *types.Chan:
 		g.assume(st, And(S("<", term, st.alloc)))
 		if _, isPtr := u.(*types.Pointer); !isPtr {
